@@ -19,7 +19,8 @@
     fails (C18 covers failing terminals). *)
 From IndModel Require Import Base Text Draw Sys SimSpec.
 From IndModel Require Import Term SingleBar.
-From IndProofs Require Import SimProofs SimScreenProofs.
+From IndGen Require Import IterOverrides.
+From IndProofs Require Import SimProofs SimScreenProofs SimIterProofs.
 From Coq Require Import List NArith.
 Import ListNotations.
 Open Scope N_scope.
@@ -111,6 +112,26 @@ Theorem C04_iter : forall W H fails s now b,
    iter_none_step W H fails s now b = step W H fails s now (OFinish b (b_on_finish (get_bar s b)))).
 Proof. exact iter_none_spec. Qed.
 Print Assumptions C04_iter.
+
+(** C04_iter_consumers_audited: which iterator methods reach the end of the iteration.  The
+    table [iter_overrides] is GENERATED from /repo/src/iter.rs by tools/iter_extract.py on every
+    check (gen/IterOverrides.v): for Iterator / DoubleEndedIterator / ExactSizeIterator /
+    FusedIterator the methods `impl .. for ProgressBarIter` defines itself.  It equals the audited
+    table: only `next` (+ size_hint), `next_back` and `len` are ProgressBarIter's own; hence every
+    other consumer - for loops, for_each, fold, try_fold, try_for_each, count, sum, product, last,
+    min/max, nth, collect, by_ref + adaptors, rev, rfold, ... - is std's DEFAULT method and
+    learns that the iteration is over only by getting None from `next` (resp. `next_back`), whose
+    bodies are, token for token, the audited ones ([iter_next_finishes]): that None branch is
+    [iter_none_step] (C04_iter) and finishes the bar.  Trusted, not proved: that std's default
+    methods are implemented through next/next_back (they are, by the trait's contract), and the
+    translator.  A new override (e.g. a `fold` that forgets to finish) changes the generated
+    table and breaks this obligation; the harness drives every consumer family as well. *)
+Theorem C04_iter_consumers_audited :
+  iter_overrides = audited_iter_overrides /\
+  exhaustion_methods iter_overrides = audited_exhaustion_methods (* = ["next"; "next_back"] *) /\
+  iter_next_finishes = true /\ iter_next_back_finishes = true.
+Proof. exact iter_consumers_audited. Qed.
+Print Assumptions C04_iter_consumers_audited.
 
 (** dropping the last handle of an UNFINISHED bar: the calls of finish_using_style, the same
     final state, then the slot bookkeeping and the handle is gone.  LEVEL: call sequence and model
